@@ -39,7 +39,7 @@ ASSUMPTIONS = [
     "if the seam sees no request although the output is noisy (generator moved), the bundle falls back to seeded "
     "six-sigma variance sweeps and records seam_bypassed",
 ]
-N_RUNS = {"quick": 1200, "thorough": 20000}
+N_RUNS = {"quick": 2400, "thorough": 20000}
 NONTRIVIAL_OPS = 3
 INCLUDES = ["ase-only", "thermal-only", "shot-only", "ase-thermal", "ase-shot", "thermal-shot", "all"]
 
@@ -69,7 +69,8 @@ def gen_field(rng):
 def generate(seed, tier):
     rng = random.Random(seed)
     ops = [common.gen_gv_op(rng)] if rng.random() < 0.85 else []
-    w = {"pd": 8, "gv": 2, "bad": 2, "reseed": rng.choice([0, 1, 2]), "freeze": rng.choice([0, 1])}
+    w = {"pd": 8, "gv": 2, "bad": 2, "reseed": rng.choice([0, 1, 2]), "freeze": rng.choice([0, 1]),
+         "clean": rng.choice([0, 1]), "leak": rng.choice([0, 0, 1])}
     kinds = [k for k, c in w.items() for _ in range(c)]
     last_n = 64
     for _ in range(rng.randint(4, 9)):
@@ -110,6 +111,10 @@ def generate(seed, tier):
             ops.append({"op": "reseed", "s": rng.getrandbits(31)})
         elif k == "freeze":
             ops.append({"op": "freeze", "on": rng.random() < 0.6})
+        elif k == "clean":
+            ops.append({"op": "clean"})      # back to the default grid
+        elif k == "leak":
+            ops.append({"op": "leak", "upto": rng.choice([40, 70, 140]), "every": rng.choice([1, 1, 3])})
     return {}, ops
 
 
@@ -186,6 +191,31 @@ class Bench:
         self.after_gv = True
         self.rec.fault("gv_reconf")
         return f"{self.gv.fs:.3e}"
+
+    def op_clean(self, op):
+        self.gv.clean()
+        self.pristine.clean()
+        self.after_gv = True
+        self.rec.fault("gv_clean")
+        return f"{self.gv.fs:.3e}"
+
+    def op_leak(self, op):
+        """Rejected calls pile up on the library's timer stack; a valid detection must keep working and keep giving
+        the same result (all draws served as zeros) at every depth."""
+        x = self.O(np.exp(1j * np.arange(48)) * 0.01)
+        bw = 0.3 * float(self.gv.fs)
+
+        def reject():
+            try:
+                self.PD(x, bw, include_noise="everything")
+            except (TypeError, ValueError):
+                pass
+
+        def valid():
+            with ScriptedRNG("zero"):
+                y = self.PD(x, bw)
+            return core.array_digest(np.asarray(y.signal)) + core.array_digest(np.asarray(y.noise))
+        return common.leak_sweep(reject, valid, op["upto"], "C09/len", self.rec, op.get("every", 1), "PD call")
 
     def _bw(self, op):
         fs = float(self.gv.fs)
